@@ -542,6 +542,29 @@ func findClientFd(clientPort, serverPort int) int {
 	return -1
 }
 
+// clientConnOpen reports whether this process still holds a socket connected to the server's port (the
+// server's own accepted sockets have that port as their local one and are not counted).
+func clientConnOpen(serverPort int) bool {
+	ents, err := os.ReadDir("/proc/self/fd")
+	if err != nil {
+		return false
+	}
+	for _, e := range ents {
+		fd, err := strconv.Atoi(e.Name())
+		if err != nil || fd < 3 {
+			continue
+		}
+		pa, err := syscall.Getpeername(fd)
+		if err != nil || sockPort(pa) != serverPort {
+			continue
+		}
+		if sa, err := syscall.Getsockname(fd); err == nil && sockPort(sa) != serverPort {
+			return true
+		}
+	}
+	return false
+}
+
 type server struct {
 	ln       *net.TCPListener
 	port     int
@@ -988,6 +1011,11 @@ func (sc *scenario) round(rn int, rd Round) error {
 	}
 	if herr != nil && panicked == "" {
 		end.Probe = sc.probe(p.Mode)
+		// "terminated, not half-open" also means that the failed handshake has hung up: no socket of this
+		// process may still be connected to the scripted server
+		if end.Probe == "ok" && p.Kind == "resp" && clientConnOpen(sc.sv.port) {
+			end.Probe = "connection-open"
+		}
 	}
 	end.Ndeliv = len(msgs)
 	end.State = sc.ws.State().String()
